@@ -108,8 +108,8 @@ def pipeline_job(jobs):
                 ctx.db_conn.close()
         real = {i: t for i, _, t in items}
         bad = {}
-        for k in range(0, len(items), 500):
-            r, b = trace_items(known, tags_file, items[k:k + 500])
+        for k in range(0, len(items), 2000):
+            r, b = trace_items(known, tags_file, items[k:k + 2000])
             summ["trace"][0] += r.distinct
             summ["trace"][1] += r.generated
             summ["trace"][2] += r.wall
@@ -332,8 +332,8 @@ def run(tier: str) -> int:
         pf = d / "pages.json"
         pf.write_text(json.dumps(pages))
         grid = "GT" if thorough else "GQ"
-        plan = [(grid, 32 if thorough else 16, "GenInv"), ("EL", 3, "GenInv"), ("CALL", 3, "GenInv"),
-                ("NEST", 3, "GenInv"), ("FILE", 16 if thorough else 8, "GenInvF")]
+        plan = [(grid, 48 if thorough else 10, "GenInv"), ("EL", 2, "GenInv"), ("CALL", 2, "GenInv"),
+                ("NEST", 2, "GenInv"), ("FILE", 16 if thorough else 4, "GenInvF")]
         agg = run_plan(o, plan, known, tags_file, str(pf))
         o.extra["action_coverage"] = dict(sorted(agg["cov"].items()))
         o.extra["cases_per_universe"] = {u: a["n"] for u, a in agg["per"].items()}
